@@ -349,7 +349,7 @@ def handle_workloads(rng):
         from dissect.hypervisor.disk.vdi import VDI
         VDI(h).read(8192)
     out.append(("vdi", vd, f.peek_bytes(0, f.size())))
-    f, _ = enc_hds.build({"ver": 2, "n": 2, "cb": 1, "bat": {0: 1, 1: 0}, "size": 2}, cluster_size=4096, P=2)
+    f, _ = enc_hds.build({"ver": 2, "n": 2, "cb": 1, "bat": {0: 3, 1: 0}, "size": 2}, cluster_size=4096, P=4, first_cluster=3)   # data area behind reserved clusters
 
     def hs(h):
         from dissect.hypervisor.disk.hdd import HDS
@@ -416,11 +416,11 @@ def damaged_handles(ctx, rng):
     # entries that point into the image's own header area (in front of the first data block)
     f, _ = enc_hds.build({"ver": 1, "n": 3, "cb": 8, "bat": {0: 1, 1: 9, 2: 0}, "size": 24}, cluster_size=4096, P=4)
     extra.append(("hds", f.peek_bytes(0, f.size())))
-    f, _ = enc_hds.build({"ver": 2, "n": 3, "cb": 1, "bat": {0: 1, 1: 2, 2: 0}, "size": 3}, cluster_size=4096, P=3)
-    b = bytearray(f.peek_bytes(0, f.size()))
-    b[64:68] = struct.pack("<I", 0)
-    b[68:72] = struct.pack("<I", 1)
-    extra.append(("hds", bytes(b)))
+    f, _ = enc_hds.build({"ver": 2, "n": 3, "cb": 1, "bat": {0: 3, 1: 4, 2: 0}, "size": 3}, cluster_size=4096, P=5, first_cluster=3)
+    for bad in (1, 2):
+        b = bytearray(f.peek_bytes(0, f.size()))
+        b[68:72] = struct.pack("<I", bad)      # an entry that points into the reserved area in front of the first data block
+        extra.append(("hds", bytes(b)))
     wl = handle_workloads(rng)
     byname = {n: fn for n, fn, _ in wl}
     cases = [(n, fn, blob, None) for n, fn, blob in wl if not n.startswith(("envelope", "vmtar-gzip"))] + [(n, byname[n], blob, "as-is") for n, blob in extra]
